@@ -269,6 +269,9 @@ func (w *World) runTCaller(ci int) {
 			var cancel context.CancelFunc
 			if op.Timeout > 0 {
 				ctx, cancel = context.WithTimeout(ctx, time.Duration(op.Timeout)*time.Microsecond)
+			} else if op.Timeout < 0 {
+				ctx, cancel = context.WithCancel(ctx)
+				cancel() // already cancelled
 			}
 			var err error
 			if ts.C != nil {
@@ -568,6 +571,138 @@ func genC02T(r *simrt.Rand, tier string, idx uint64) *Plan {
 
 func checkC02T(w *World, run *simrt.Run) {
 	checkC02(w, run)
+}
+
+// ------------------------------------------------------------------ C19 through Transport / Client
+
+// genC19T: CallWithContext through the pooling Transport and (half of the runs) through a
+// load-balancing Client on top of it. The network adds no simulated delay, so return times are
+// exact. A quarter of the runs take servers away for a while (with a Client: possibly all of them,
+// so that callers have to wait for a live target).
+func genC19T(r *simrt.Rand, tier string, idx uint64) *Plan {
+	p := genTBase(r, "c19t")
+	p.Net.FragPermille = 0
+	for i := range p.Servers {
+		p.Servers[i].Pipelining = false // handlers run concurrently: answer times are the scripted ones
+	}
+	if idx%2 == 1 {
+		p.Params["via_client"] = 1
+		p.Params["sched"] = r.Intn(3)
+	}
+	faulty := idx%4 >= 2
+	p.Params["faulty"] = b2i(faulty)
+	ns := len(p.Servers)
+	nc := 1 + r.Intn(4)
+	for c := 0; c < nc; c++ {
+		cp := ClientPlan{}
+		if p.Params["via_client"] == 1 {
+			cp.Ops = append(cp.Ops, Op{Kind: "sleep", N: 300000}) // the detector has found the targets
+		}
+		n := 1 + r.Intn(7)
+		for i := 0; i < n; i++ {
+			op := Op{Kind: "ctx", Addr: r.Intn(ns), Shape: r.Intn(4), Size: r.Intn(200), Rep: r.Intn(200), CtxBuf: -1}
+			d := 50 + r.Intn(2000)
+			switch r.Intn(8) {
+			case 0: // answer well before the deadline
+				op.Flags, op.Arg, op.Timeout = FlSlow, uint32(d), d+1+r.Intn(2000)
+			case 1: // deadline before the answer
+				op.Flags, op.Arg, op.Timeout = FlSlow, uint32(d+1+r.Intn(2000)), d
+			case 2: // never answered
+				op.Flags, op.Timeout = FlNoAnswer, d
+			case 3: // already cancelled
+				op.Timeout = -1
+			case 4: // immediate answer, generous deadline
+				op.Timeout = 1000000
+			case 5: // no deadline
+			default: // a sibling of another form
+				op.Kind = []string{"call", "go", "rt", "ping"}[r.Intn(4)]
+				if r.Bool() {
+					op.Flags, op.Arg = FlSlow, uint32(1+r.Intn(1500))
+				}
+			}
+			cp.Ops = append(cp.Ops, op)
+			if r.Chance(1, 4) {
+				cp.Ops = append(cp.Ops, Op{Kind: "sleep", N: r.Intn(3000)})
+			}
+		}
+		p.Clients = append(p.Clients, cp)
+	}
+	if faulty {
+		// servers go away (all of them in half of these runs) and come back much later
+		cp := ClientPlan{Ops: []Op{{Kind: "sleep", N: 300000 + r.Intn(3000)}}}
+		all := r.Bool()
+		for a := 0; a < ns; a++ {
+			if all || r.Bool() {
+				cp.Ops = append(cp.Ops, Op{Kind: "kill", Addr: a})
+			}
+		}
+		cp.Ops = append(cp.Ops, Op{Kind: "sleep", N: 4000000})
+		for a := 0; a < ns; a++ {
+			cp.Ops = append(cp.Ops, Op{Kind: "restart", Addr: a})
+		}
+		p.Clients = append(p.Clients, cp)
+		// callers that arrive while the servers are away
+		for c := 0; c < 1+r.Intn(3); c++ {
+			d := 50 + r.Intn(2000)
+			p.Clients = append(p.Clients, ClientPlan{Ops: []Op{{Kind: "sleep", N: 420000 + r.Intn(500000)}, {Kind: "ctx", Addr: r.Intn(ns), Size: 5, Rep: 5, CtxBuf: -1, Timeout: d}, {Kind: "ctx", Addr: r.Intn(ns), Size: 5, Rep: 5, CtxBuf: -1, Timeout: -1}}})
+		}
+	}
+	return p
+}
+
+func checkC19T(w *World, run *simrt.Run) {
+	faulty := w.P.Params["faulty"] == 1
+	for _, c := range w.Calls {
+		if !c.Returned {
+			w.Violate("C19.stuck", "call-never-returned:"+c.Form, descCall(c))
+			continue
+		}
+		if c.Form != "ctx" {
+			if !faulty && ((c.Form == "ping" && c.Err != "") || (c.Form != "ping" && (c.Err != "" || !c.ReplyOK))) {
+				w.Violate("C19.sibling-harmed", "sibling-call-harmed:"+c.Form, descCall(c)+": "+c.ReplyWhy)
+			}
+			continue
+		}
+		took := c.ReturnT - c.InvokeT
+		to := time.Duration(c.Timeout) * time.Microsecond
+		if c.Err == "" && !c.ReplyOK {
+			w.Violate("C19.wrong-reply", "ctx-call-wrong-reply", descCall(c)+": "+c.ReplyWhy)
+		}
+		if c.Timeout > 0 && took > to {
+			w.Violate("C19.late", "returned-after-deadline", fmt.Sprintf("%s: deadline %v, returned after %v with %q (through a Client: %v)", descCall(c), to, took, c.Err, w.TS.C != nil))
+		}
+		if c.Timeout < 0 && took > 0 {
+			w.Violate("C19.late", "cancelled-call-took-time", fmt.Sprintf("%s: context already cancelled, returned after %v with %q (through a Client: %v)", descCall(c), took, c.Err, w.TS.C != nil))
+		}
+		if faulty {
+			continue
+		}
+		slow := time.Duration(0)
+		if c.Flags&FlSlow != 0 {
+			slow = time.Duration(c.Arg) * time.Microsecond
+		}
+		noAnswer := c.Flags&FlNoAnswer != 0
+		switch {
+		case c.Timeout > 0 && !noAnswer && slow < to:
+			if c.Err != "" {
+				w.Violate("C19.reply-lost", "reply-before-deadline-not-returned", fmt.Sprintf("%s: handler answers after %v, deadline %v, got %q after %v", descCall(c), slow, to, c.Err, took))
+			} else {
+				w.Probe("reply-before-deadline")
+			}
+		case c.Timeout > 0 && (noAnswer || slow > to):
+			if c.ErrKind != "deadline" {
+				w.Violate("C19.no-timeout", "deadline-before-reply-not-reported", fmt.Sprintf("%s: handler answers after %v (never=%v), deadline %v, got err=%q", descCall(c), slow, noAnswer, to, c.Err))
+			} else if took != to {
+				w.Violate("C19.late", "deadline-not-prompt", fmt.Sprintf("%s: deadline %v, returned after %v", descCall(c), to, took))
+			} else {
+				w.Probe("deadline-before-reply")
+			}
+		case c.Timeout == 0:
+			if c.Err != "" {
+				w.Violate("C19.wrong-error", "ctx-call-without-deadline-failed", descCall(c))
+			}
+		}
+	}
 }
 
 // ------------------------------------------------------------------ C14
@@ -1001,6 +1136,7 @@ func checkC04T(w *World, run *simrt.Run) {
 
 func init() {
 	register(&Scenario{Property: "C02", Name: "c02t", Gen: genC02T, Main: (*World).RunTransportWorld, Check: checkC02T})
+	register(&Scenario{Property: "C19", Name: "c19t", Gen: genC19T, Main: (*World).RunTransportWorld, Check: checkC19T})
 	register(&Scenario{Property: "C04", Name: "c04t", Gen: genC04T, Main: (*World).RunTransportWorld, Check: checkC04T})
 	register(&Scenario{Property: "C13", Name: "c13", Gen: genC13, Main: (*World).RunTransportWorld, Check: checkC13})
 	register(&Scenario{Property: "C14", Name: "c14", Gen: genC14, Main: (*World).RunTransportWorld, Check: checkC14})
